@@ -216,7 +216,10 @@ def rule_sg6(A: Analysis, rep):
     if ok:
         rn = gw.node_of(_stmt_of(reads[0]))
         # every return passes exactly one read of one byte and returns one extracted entry; the read is not in a loop
-        ok = len(rets) == 1 and norm(rets[0].ast.value) == "self._extract_any()" and gw.all_paths_pass(gw.entry, rets[0], [rn], skip_labels=is_exc) and \
+        rv = rets[0].ast.value if len(rets) == 1 else None
+        if isinstance(rv, ast.Call):
+            rv = A.pred_body(rv, wt) or rv   # `self._extract_any()` → its single returned expression
+        ok = rv is not None and norm(rv) in ("self._returncodes.pop()", "self._returncodes.pop(0)") and gw.all_paths_pass(gw.entry, rets[0], [rn], skip_labels=is_exc) and \
             rn not in gw.reach([m for (m, l) in rn.succ], skip_labels=is_exc)
     rep.check(ok, "SG6", "wait: one byte then one entry", wt.node, "wait() consumes one byte, then extracts exactly one entry",
               "wait() no longer reads exactly one byte before extracting one entry")
@@ -238,17 +241,31 @@ def rule_sg6(A: Analysis, rep):
                 det9 = "select timeout=%r (must be a positive constant ≤ 5 s); read gated by the poll result=%s" % (tv, gated)
     rep.check(ok9, "SG9", "blocking wait has a timeout (no lost SIGCHLD wake-up)", wt.node,
               "the self-pipe is polled with a bounded timeout in a loop, so a pending Python-level handler always gets to run", det9, key="SG9|lost wakeup")
-    ea = A.fn(S + "_extract_any")
-    rets = [x for x in walk_local(ea.node) if isinstance(x, ast.Return)]
-    rep.check(len(rets) == 1 and norm(rets[0].value) in ("self._returncodes.pop()", "self._returncodes.pop(0)"), "SG6", "extract removes one entry", ea.node,
-              "", "_extract_any does not pop exactly one entry")
-    # field-access inventory: who touches the pipe ends and the list
+    # field-access inventory: who touches the pipe ends and the list, and how
     users = {}
+    ops = []
     for f in A.prog.scan_functions:
         for n in walk_local(f.node):
             if isinstance(n, ast.Attribute) and n.attr in ("_returncodes", "_read_pipe", "_write_pipe"):
                 users.setdefault(n.attr, set()).add(f.name)
-    rep.check(users.get("_returncodes") == {"__init__", "track", "_add_returncode", "_extract_any"}, "SG6", "list accessors", None,
+                par = getattr(n, "_parent", None)
+                if n.attr == "_returncodes":
+                    if isinstance(par, ast.Attribute) and isinstance(getattr(par, "_parent", None), ast.Call) and par._parent.func is par:
+                        ops.append((f.name, par.attr))
+                    elif isinstance(n.ctx, ast.Store):
+                        ops.append((f.name, "="))
+                    else:
+                        ops.append((f.name, "read"))
+    pops = [o for o in ops if o[1] == "pop"]
+    others = sorted(set(o for o in ops if o[1] not in ("pop",)))
+    ok_ops = len(pops) == 1 and pops[0][0] in ("_extract_any", "wait") and set(others) <= {("_add_returncode", "append"), ("__init__", "="), ("track", "="), ("track", "clear"), ("track", "read")} \
+        and ("_add_returncode", "append") in others
+    # when the pop lives in a helper, only wait() may call it
+    if ok_ops and pops[0][0] == "_extract_any":
+        ok_ops = {f_.fq for (f_, _c) in A.cg.callers.get("conductor.utils.sigchld.SigchldHelper._extract_any", [])} <= {"conductor.utils.sigchld.SigchldHelper.wait"}
+    rep.check(ok_ops, "SG6", "extract removes one entry", wt.node, "entries are appended only by the handler and popped only (once) by wait()",
+              "operations on _returncodes: %s" % sorted(set(ops)))
+    rep.check(users.get("_returncodes", set()) <= {"__init__", "track", "_add_returncode", "_extract_any", "wait"}, "SG6", "list accessors", None,
               "", "_returncodes is touched by %s" % sorted(users.get("_returncodes", [])), deep=False)
     rep.check(users.get("_read_pipe") == {"__init__", "track", "wait"} and users.get("_write_pipe") == {"__init__", "track", "_add_returncode"}, "SG6", "pipe accessors", None,
               "", "pipe ends are touched by %s / %s" % (sorted(users.get("_read_pipe", [])), sorted(users.get("_write_pipe", []))), deep=False)
